@@ -192,3 +192,5 @@ def run(ctx):
 
     r = ctx.rule("R6", "a simplified function reports its parent's variable map (recycled storage never contributes one)", 6)
     ctx.guarded(r, S_.r_tail)
+    # named variables reach the inner evaluators through recycled scratch rows (C14j-1: a row "already holding" the value)
+    ctx.include('C10', 'variable values are bound through recycled scratch rows', only=('R1s', 'R1v'))
